@@ -7,6 +7,7 @@ import (
 	"os"
 	"path/filepath"
 	"runtime/debug"
+	"strings"
 	"testing"
 	"time"
 
@@ -472,8 +473,10 @@ func (r *redisRunner) probeAll() *kvh.Fail {
 }
 
 var (
-	c19Keys   = [][]byte{[]byte("a"), []byte("b"), []byte("ab"), []byte("c")}
-	c19Fields = [][]byte{[]byte("f1"), []byte("f2"), []byte("x"), {0x00, 0xff}}
+	c19Keys = [][]byte{[]byte("a"), []byte("b"), []byte("ab"), []byte("c")}
+	// "10" and "1x" spell a score from the pool followed by another member of the pool ("0", "x"): members and
+	// (score, member) pairs must stay apart whatever their bytes are
+	c19Fields = [][]byte{[]byte("f1"), []byte("f2"), []byte("x"), {0x00, 0xff}, []byte("0"), []byte("10"), []byte("1x")}
 	// distinct scores, among them pairs that differ only in the last bits (an update must still be an update)
 	c19Scores = []float64{-2.5, 0, 0.5, math.Nextafter(0.5, 1), 1, 3, 100, 100.00000001, 1e10, 1e10 + 1, -0.001, 1.7e12, 1.70000000025e12}
 	c19Cmds   = []string{"set", "get", "hset", "hget", "hdel", "sadd", "sismember", "srem", "lpush", "rpush", "lpop", "rpop", "zadd", "zscore", "del", "type", "restart",
@@ -487,7 +490,44 @@ func TestC19(t *testing.T) {
 		"TTLs are 0, +1h or -1h, so no outcome depends on when the check runs",
 		"user keys are <= 2 bytes and can never collide with the >= 9-byte internal element keys; element values are non-empty so that 'present' and 'absent' replies differ")
 	defer finishProperty(st)
+	c19AliasProbe(t, st)
 	rapid.Check(t, func(t *rapid.T) { c19Run(t, st) })
+}
+
+// c19AliasProbe replays the one input family that is excluded from the
+// generated members because it is a recorded finding: a member whose bytes
+// spell the internal "score key" of another (score, member) pair of the same
+// sorted set - score text, member, 4-byte little-endian member length.
+func c19AliasProbe(t *testing.T, st *kvh.Stats) {
+	if !kvh.GetEnv().Mine(0) {
+		return
+	}
+	r, f := newRedisRunner(kvh.DefaultOpt())
+	if f != nil {
+		report(t, st, &c19Case{Property: "C19", Kind: "c19", Opt: kvh.DefaultOpt()}, f)
+	}
+	defer r.cleanup()
+	key, m := []byte("z"), []byte("x")
+	alias := []byte("1x\x01\x00\x00\x00")
+	var got []string
+	isNew, err := r.dts.ZAdd(key, 1, m)
+	got = append(got, fmt.Sprintf("ZAdd(z,1,x)=%v,%v", isNew, err))
+	sc, err := r.dts.ZScore(key, alias)
+	bad := err == nil
+	got = append(got, fmt.Sprintf("ZScore(z,%q)=%v,%v (want not found)", alias, sc, err))
+	isNew, err = r.dts.ZAdd(key, 7, alias)
+	bad = bad || !isNew
+	got = append(got, fmt.Sprintf("ZAdd(z,7,%q)=%v,%v (want true)", alias, isNew, err))
+	_, _ = r.dts.ZAdd(key, 2, m)
+	sc, err = r.dts.ZScore(key, alias)
+	bad = bad || err != nil || sc != 7
+	got = append(got, fmt.Sprintf("after ZAdd(z,2,x): ZScore(z,%q)=%v,%v (want 7)", alias, sc, err))
+	st.Exclude("zset-members-spelling-a-score-key", 1)
+	if bad {
+		st.Known("zset-member-aliases-score-key", strings.Join(got, "; "))
+		return
+	}
+	st.Label("zset-alias-probe-clean")
 }
 
 func c19Run(t *rapid.T, st *kvh.Stats) {
